@@ -26,7 +26,7 @@ def run(tier):
     extra[os.path.join(REPO, "internal", "pure", "zz_verif_pure_add.go")] = os.path.join(hdir, "zz_verif_pure_add.go")
     st = c.scratch.path("c12schema", "zz_verif_schema.go")
     open(st, "w").write("//go:build verif\n\npackage h\n\nconst verifSchemaText = %s\n" % json.dumps(open(schema).read()))
-    params = {"N": 16} if q else {"N": 36}
+    params = {"N": 16, "NT": 24} if q else {"N": 36, "NT": 40}
     c.run_pkg(REPO, "./internal/pure/onthefly/zzgen/h", os.path.join(vroot, "h"), "h", [os.path.join(hdir, "zz_verif_c12.go"), st], "^VerifC12", params=params,
               extra_overlays=extra, max_models=6 if q else 20, wall="60s" if q else "900s", soft_trunc="record", max_paths=3000 if q else 100000,
               soft_problem_rx=r"loop bound \d+ exceeded in \(\*github.com/VKCOM/tl/internal/pure/onthefly\.KernelValueArray\)\.resize|exploration truncated")
